@@ -380,6 +380,40 @@ R2.update({
  "C01-12": ("/tmp/seeds12/A/3", "C01", "multipart response with a part whose last byte position is 9, 99, 999...: length computed from the half-open end, one byte too large per such part", ["C06", "C12"]),
 })
 
+# round 13: property text and worktree only
+R2.update({
+ "C06-19": ("/tmp/seeds13/A/1", "C06", "multi-range without If-Range and an entity that appends the same header name twice: by-value HeaderMap iteration yields None for the repeated name, later lines dropped from every part", ["C14"]),
+ "C01-13": ("/tmp/seeds13/A/2", "C01", "entity near 2^64 with long part headers whose multipart total lands in u64::MAX-8 ..= u64::MAX: closing delimiter added unchecked, panic / wrapped Content-Length", ["C13", "C06"]),
+ "C06-20": ("/tmp/seeds13/A/3", "C06", "multi-range without If-Range and an entity header value with a non-UTF-8 byte: part header block built through from_utf8_lossy", ["C14"]),
+ "C07-12": ("/tmp/seeds13/B/1", "C07", "an entity whose Data is a NON-CONTIGUOUS Buf: chunk accounting by chunk().len(), an over-long chunk passes, a correct segmented one is reported too short", ["C02", "C01"]),
+ "C02-13": ("/tmp/seeds13/B/2", "C02", "multipart response whose ranges are not in ascending order (bytes=-20,0-99): ranges sorted after the part headers were built in request order", ["C06"]),
+ "C02-14": ("/tmp/seeds13/B/3", "C02", "two ADJACENT ranges resolving to the same interval inside a multipart response (bytes=0-9,0-9,100-149): ranges.dedup() after headers and Content-Length were computed", ["C06", "C01"]),
+ "C03-20": ("/tmp/seeds13/C/1", "C03", "any position written with 20 digits (10^19 ..= 2^64-1, e.g. 2^64-1): 'more than 19 digits cannot fit' guard, header ignored", ["C13"]),
+ "C13-15": ("/tmp/seeds13/C/2", "C13", "two or more If-None-Match (or If-Match) header LINES that are all empty: joined list truncated by 2 from length 0 (panic in checked builds)", ["C04"]),
+ "C03-21": ("/tmp/seeds13/C/3", "C03", "more than 200 satisfiable specs on an entity large enough that multipart is required: MAX_RANGES limit answers the complete 200", ["C06"]),
+ "C04-20": ("/tmp/seeds13/D/1", "C04", "If-Modified-Since later than Last-Modified AND later than the wall clock: treated as invalid, 200 instead of 304", ["C14"]),
+ "C14-17": ("/tmp/seeds13/D/2", "C14", "HISTORY on one thread: two requests less than 1 s apart with a second boundary between them, the second for an entity modified in the future / just now: Date re-rendered only after 1 s on Instant, Last-Modified exceeds Date", []),
+ "C14-18": ("/tmp/seeds13/D/3", "C14", "a strong entity ETag with an obs-text byte echoed in If-Range + Range: to_str() fails, value falls into the 'date, never matches' arm, 200 instead of 206", ["C05"]),
+ "C05-15": ("/tmp/seeds13/E/1", "C05", "If-Range holding a LIST whose any element strongly matches (\"v1\", \"v2\" / \"v2\", garbage): list parser reused with any(), 206", []),
+ "C15-17": ("/tmp/seeds13/E/2", "C15", "HEAD multi-range where the entity length or a position is just below a power of ten from 10^15 up: HEAD-only length measurement through f64 log10", ["C06"]),
+ "C15-18": ("/tmp/seeds13/E/3", "C15", "streaming_body + HEAD + gzip preferred + final level 0: HEAD arm tests only should_gzip", ["C17"]),
+ "C17-16": ("/tmp/seeds13/F/1", "C17", "with_gzip_level(0) followed by with_gzip_level(n > 0) on a request that prefers gzip: negotiation result folded into an Option that level 0 clears for good", ["C15"]),
+ "C12-19": ("/tmp/seeds13/F/2", "C12", "multipart GET on an entity whose Data is a non-contiguous Buf: running `remaining` decremented by chunk().len(), exact hint overstates, is_end_stream stays false after the trailer", ["C01", "C06"]),
+ "C12-20": ("/tmp/seeds13/F/3", "C12", "abort, then is_end_stream() observed before the next poll: size_hint exact 0 in the aborted state + is_end_stream derived from the hint", ["C11"]),
+ "C10-22": ("/tmp/seeds13/G/1", "C10", "writer dropped with a non-empty buffer while the consumer is parked; the consumer polls (data, then Pending, waker re-registered) between the drop's flush and its second lock acquisition: end-of-stream wake skipped", ["C08"]),
+ "C08-13": ("/tmp/seeds13/G/2", "C08", "chunk >= 3: flush of a short piece, no poll, a second piece that overflows the room left in the queued chunk, flush: the remainder stays in the writer's private buffer", ["C09"]),
+ "C10-23": ("/tmp/seeds13/G/3", "C10", "re-poll with a waker that shares its DATA POINTER with the registered one and differs only in vtable: will_wake replaced by a data-pointer comparison, stale waker kept", ["C11"]),
+ "C11-16": ("/tmp/seeds13/H/1", "C11", "body polled to Pending twice under different wakers with no flush in between, then abort: waker stored only if none is stored", ["C10"]),
+ "C09-16": ("/tmp/seeds13/H/2", "C10", "gzip negotiated, consumer parked, compressed output ending on a chunk boundary through a fast path of write (always at chunk size 1): chunk queued without waking, flush returns early (delivered to us under C09; what it breaks is the wake-up clause of C10: the frames are there for a consumer that polls)", ["C09", "C08"]),
+ "C11-17": ("/tmp/seeds13/H/3", "C11", "abort at any position, then is_end_stream() inspected before the next poll_frame: true while the error is pending", ["C12"]),
+ "C16-18": ("/tmp/seeds13/I/1", "C16", "whitespace before the ';' of a weight on gzip / identity / * (gzip ;q=0, *): the blank stays attached to the coding, element ignored", ["C17"]),
+ "C19-17": ("/tmp/seeds13/I/2", "C19", "auto_gzip + gzip preferred + <path>.gz is a DIRECTORY: buffer not truncated in that arm, the directory <path>.gz is opened", []),
+ "C19-18": ("/tmp/seeds13/I/3", "C19", "path ending in '/' + auto_gzip + gzip preferred + <stem>.gz exists: trailing slashes popped before appending .gz, get(\"a/\") returns a.gz", []),
+ "C18-20": ("/tmp/seeds13/J/1", "C18", "file truncated AFTER the first poll to a length strictly inside the range's last read-size chunk: stream advances by the requested read size, clean end short", []),
+ "C20-14": ("/tmp/seeds13/J/2", "C20", "multipart response, an entity error in a part, at least two further polls: failed part's stream kept, second error, then index out of bounds", ["C06"]),
+ "C18-21": ("/tmp/seeds13/J/3", "C18", "pre-1970 mtime with non-zero nanoseconds: rebuilt time 2 x nanos too early", []),
+})
+
 def sh(cmd, **kw):
     return subprocess.run(cmd, shell=True, capture_output=True, text=True, **kw)
 
